@@ -359,11 +359,13 @@ class SED(object):
         flux_interp = interp1d(sed_apertures, self.flux.swapaxes(0, 1))
 
         # If any apertures are smaller than the defined min, raise Exception
-        if np.any(apertures < sed_apertures.min()):
+        # (an aperture that equals the smallest one up to rounding, e.g.
+        # arcsec * 10**log10(d) versus arcsec * d, is not too small)
+        if np.any(apertures < sed_apertures.min() * (1. - 1.e-10)):
             raise Exception("Aperture(s) requested too small")
 
         # If any apertures are larger than the defined max, reset to max
-        apertures = np.minimum(apertures, sed_apertures.max())
+        apertures = np.clip(apertures, sed_apertures.min(), sed_apertures.max())
 
         return flux_interp(apertures)
 
@@ -384,7 +386,8 @@ class SED(object):
         apertures[apertures > sed_apertures.max()] = sed_apertures.max()
 
         # If any apertures are smaller than the defined min, raise Exception
-        if np.any(apertures < sed_apertures.min()):
+        # (equality up to rounding is accepted, see interpolate)
+        if np.any(apertures < sed_apertures.min() * (1. - 1.e-10)):
             raise Exception("Aperture(s) requested too small")
 
         # Find wavelength order
